@@ -355,3 +355,43 @@ def run_cond(root, argv, cwd=None, kspec=None, inject=None, env=None, timeout=12
     if res.get("status") == "harness_error":
         raise HarnessError("harness error in child: " + res.get("detail", ""))
     return res
+
+
+def call_in_child(fn, env=None, timeout=60):
+    """Run fn() in a forked child with os.environ updated by env; returns its (picklable) result."""
+    r, w = os.pipe()
+    pid = os.fork()
+    if pid == 0:
+        try:
+            os.close(r)
+            if env is not None:
+                for k in [k for k in os.environ if k.startswith("COND_")]:
+                    del os.environ[k]
+                os.environ.update(env)
+            try:
+                out = ("ok", fn())
+            except BaseException as ex:  # noqa
+                out = ("exc", "%s: %s" % (type(ex).__name__, ex))
+            data = pickle.dumps(out)
+            while data:
+                n = os.write(w, data)
+                data = data[n:]
+        finally:
+            os._exit(0)
+    os.close(w)
+    chunks = []
+    deadline = time.monotonic() + timeout
+    while True:
+        rr, _, _ = select.select([r], [], [], max(0.0, deadline - time.monotonic()))
+        if not rr:
+            os.kill(pid, signal.SIGKILL)
+            os.waitpid(pid, 0)
+            os.close(r)
+            raise HarnessError("call_in_child timed out")
+        b = os.read(r, 1 << 16)
+        if not b:
+            break
+        chunks.append(b)
+    os.close(r)
+    os.waitpid(pid, 0)
+    return pickle.loads(b"".join(chunks))
